@@ -91,10 +91,11 @@ def expand_elements(
                     )
                 elif isinstance(element, Continue):
                     if element.label is None and continue_break_labels is not None:
-                        element.label = continue_break_labels[0]
+                        # The parsed element must stay as it is: the same parsed flow can be compiled again
+                        expanded_elements = [Continue(label=continue_break_labels[0])]
                 elif isinstance(element, Break):
                     if element.label is None and continue_break_labels is not None:
-                        element.label = continue_break_labels[1]
+                        expanded_elements = [Break(label=continue_break_labels[1])]
 
                 if len(expanded_elements) > 0:
                     # Map new elements to source
